@@ -9,8 +9,11 @@ PENDING_REASON = "no check registered yet in this round (planned: see DESIGN.md 
 def main():
     props = [json.loads(l) for l in open(os.path.join(ROOT, "properties.jsonl"))]
     checks, claimed = [], set()
+    registered = {l.strip() for l in open(os.path.join(ROOT, "checks", "REGISTERED")) if l.strip()}
     for path in sorted(glob.glob(os.path.join(ROOT, "checks", "c[0-9][0-9]_*.py"))):
         name = os.path.splitext(os.path.basename(path))[0]
+        if name[:3].upper() not in registered:
+            continue  # work in progress: not claimed until quiet on the unchanged tree
         mod = importlib.import_module(f"checks.{name}")
         meta = getattr(mod, "META", None)
         if not meta or meta.get("disabled"):
